@@ -659,7 +659,7 @@ def run_batch(ctx):
         opts = dict(OPTION_SETS[b % len(OPTION_SETS)])
         g = G_MAIN if b % 3 else G_ALT
         ctx.sample({'grammar': g, 'opts': opts, 'lib': LIB, 'faults': 'truncate/bitflip/foreign-payload/killed-writer + history'})
-        for _ in range(3 if tier == 'quick' else 12):
+        for _ in range(5 if tier == 'quick' else 12):
             if ctx.time_left(0.5):
                 history(ctx, env, rng)
         faults_for(ctx, env, g, opts, LIB, rng, tier, exhaustive=(tier == 'thorough' and b < 16))
